@@ -160,38 +160,44 @@ Section Total.
       unfold add_def. simpl. apply incl_tl, incl_refl.
   Qed.
 
-  Lemma visit_body_total k V :
-    GoodV k V -> GoodV (S k) (visit_body tm V).
+  Lemma visit_body_total fx k V :
+    GoodV k V -> GoodV (S k) (visit_body_v fx tm V).
   Proof.
-    intros HV n f l s Hs. unfold visit_body.
+    intros HV n f l s Hs. unfold visit_body_v.
     destruct (best tm f n l) as [d|] eqn:Hb.
-    - destruct (mem (d_id d) (s_defs s)) eqn:Hm.
-      + exists [], s. split; [reflexivity|apply incl_refl].
-      + apply best_in in Hb. destruct Hb as [Hin _].
-        assert (Hlt : (unv tm (add_def d s) < k)%nat) by (pose proof (unv_add_def tm s d Hin Hm); lia).
-        destruct (one_def_total k V n d (add_def d s) HV Hlt) as [o [s' [E I]]].
-        exists o, s'. split; [exact E|]. eapply incl_tran; [|exact I].
-        unfold add_def. simpl. apply incl_tl, incl_refl.
+    - apply best_in in Hb. destruct Hb as [Hin [_ Hnm]]. destruct fx.
+      + apply (defs_loop_total k); [exact HV| |lia].
+        intros d0 [<-|Hd]; [exact Hin|]. apply global_defs_in in Hd. tauto.
+      + destruct (mem (d_id d) (s_defs s)) eqn:Hm.
+        * exists [], s. split; [reflexivity|apply incl_refl].
+        * assert (Hlt : (unv tm (add_def d s) < k)%nat) by (pose proof (unv_add_def tm s d Hin Hm); lia).
+          destruct (one_def_total k V n d (add_def d s) HV Hlt) as [o [s' [E I]]].
+          exists o, s'. split; [exact E|]. eapply incl_tran; [|exact I].
+          unfold add_def. simpl. apply incl_tl, incl_refl.
     - apply (defs_loop_total k); [exact HV| |lia].
       intros d Hd. apply global_defs_in in Hd. tauto.
   Qed.
 
-  Lemma visit_total fuel : GoodV fuel (visit tm fuel).
+  Lemma visit_total fx fuel : GoodV fuel (visit_v fx tm fuel).
   Proof.
     induction fuel as [|k IH].
     - intros n f l s Hs. lia.
     - simpl. apply visit_body_total. exact IH.
   Qed.
 
-  (* cyclic and diamond graphs included: no hypothesis on tm whatsoever *)
-  Theorem class_list_terminates t f l : exists o, class_list (fuel_of tm) tm t f l = Ok o.
+  (* cyclic and diamond graphs included: no hypothesis on tm whatsoever; both variants of the lookup *)
+  Theorem class_list_v_terminates fx t f l : exists o, class_list_v fx (fuel_of tm) tm t f l = Ok o.
   Proof.
-    unfold class_list, fuel_of.
+    unfold class_list_v, fuel_of.
     assert (H0 : (unv tm st0 < S (length tm))%nat) by (pose proof (unv_le_length tm st0); lia).
-    destruct (names_loop_total (S (length tm)) (visit tm (S (length tm))) (normal_names t) f l st0
-                (visit_total _) H0) as [o [s' [E _]]].
+    destruct (names_loop_total (S (length tm)) (visit_v fx tm (S (length tm))) (normal_names t) f l st0
+                (visit_total fx _) H0) as [o [s' [E _]]].
     rewrite E. simpl. exists o. reflexivity.
   Qed.
+
+  (* the deployed variant (name and statement cited by Properties/C01.v and C15.v) *)
+  Theorem class_list_terminates t f l : exists o, class_list (fuel_of tm) tm t f l = Ok o.
+  Proof. exact (class_list_v_terminates c15_split_fixed t f l). Qed.
 
 End Total.
 
